@@ -146,8 +146,11 @@ def advWhileF (p : UInt8 → Bool) : Nat → Z → Z
     | b :: _ => if p b then advWhileF p n (advance z) else z
 def advWhile (p : UInt8 → Bool) (z : Z) : Z := advWhileF p z.after.length z
 
+/-- blank or tab: what `skipSpaces` steps over between the tokens of a line -/
+@[inline] def isBlank (c : UInt8) : Bool := c == 0x20 || c == 0x09
+
 /-- `l.skipSpaces()` -/
-def skipSpaces (z : Z) : Z := advWhile (· == 0x20) z
+def skipSpaces (z : Z) : Z := advWhile isBlank z
 
 /-- `if l.pos < len(l.input) && p(l.peek()) { l.advance() }` -/
 def advIf (p : UInt8 → Bool) (z : Z) : Z :=
